@@ -43,13 +43,16 @@ CHECKS = {
     "C11": ("proof", "Coq proof (every time divided, frame unchanged, idempotent, result valid whenever the division is order-preserving on the graph's times) + correspondence; the binary64 cases where division is not order-preserving are known findings",
             "in_generations is proved to divide every time by the generation time and change nothing else, and to be idempotent given x/1 == x; "
             "receiver-unchanged and no shared state are checked on the implementation; the result can be invalid on binary64 when the quotient "
-            "collapses, overflows or underflows (F12a-c); in exact rational arithmetic the result is proved valid unconditionally."),
+            "collapses, overflows or underflows (F12a-c); in exact rational arithmetic the result is proved valid unconditionally, and for binary64 (Coq's primitive floats, NumF) the validity clause is "
+            "refuted inside Coq by three evaluated valid graphs whose conversion is invalid (underflow, collapse, overflow) together with the failure of the theorem's hypothesis DivOK on them."),
     "C12": ("proof", "Coq proof (end times, partition, pointwise agreement, row sums) + exact correspondence + pointwise check on the implementation",
             "For every graph satisfying MigsOK (implied by Valid): end times strictly decrease to 0, the intervals partition [0, inf), the matrix of the "
             "interval containing t holds exactly the rate of the migration in force at t (0.0 when none), no row exceeds one beyond the tolerance."),
     "C13": ("proof", "Coq proof about a hand-written model of Deme.size_at + bit-exact correspondence of the extracted model with the implementation",
             "Zero outside the lifetime (start exclusive, end inclusive), end size at every epoch end, unique owner epoch inside, value at infinity, "
-            "the three interpolation formulas; between-ness for linear epochs in exact rational arithmetic. Between-ness inside exponential epochs and under "
+            "the three interpolation formulas; between-ness for linear epochs in exact rational arithmetic and for all three size functions (exponential included, with the "
+            "exact closed form and its monotonicity) in exact real arithmetic (NumR instance over the standard library's Reals; its real-number and classical axioms are listed in the evidence). "
+            "The arithmetic expressions of size_at are translated from the current source and tied to the model on every run. Between-ness under "
             "binary64 rounding is checked on the implementation's answers."),
     "C14": ("proof", "Coq proof (predecessors, successors, transpose, four-way classification) + correspondence",
             "predecessors/successors are proved to be exactly the ancestor lists and their transpose with one entry per deme; the event lists are "
@@ -67,7 +70,8 @@ CHECKS = {
             "sizes and incoming rates at two interior points of every interval of the common refinement of both sides' boundaries (exhaustive for "
             "piecewise-exponential functions), lineage-movement matrices at every event time; Model/ToMs.v is compared bit for bit with the implementation's "
             "event list; graphs outside the class must be refused. Theorems in coq/Props/C07.v: numbering, sorting, refusal, and against the ms semantics: "
-            "migration rates in force, which populations exist, the growth rate and the size anchor of the owning epoch, the split chain of a multi-ancestor deme (exact arithmetic)."),
+            "migration rates in force, which populations exist, the growth rate and the size anchor of the owning epoch, the split chain of a multi-ancestor deme (exact arithmetic), and in exact real arithmetic "
+            "that the anchored exponential has at every time of the epoch exactly the deme's size (ms_size_exp_R; standard-library real axioms). The arithmetic expressions of to_ms / get_growth_rate are tied to the model from the current source on every run."),
     "C08": ("translation_validation", "ms semantics run on every generated command and compared with the graph from_ms returns + exact correspondence of Model/FromMs.v + Coq proofs: every returned graph is Valid; the interpreter refines the ms semantics for populations and the migration matrix; migration records are the inverse of the matrix history",
             "Generated command lines over all supported options (time coincidences, shuffled order, ignored options) are converted by the implementation; the "
             "returned graph is compared with the ms semantics of the command (sizes, rates, lineage movements), validated, and compared exactly with the model "
